@@ -148,7 +148,9 @@ def outcome(fn):
 
 def sweep_bytes(sw, r, tier):
     for name, (fn, texts) in entry_points().items():
-        extra = [t + "x" for t in texts] + ["", "é", "😀"]
+        # non-ASCII digits are digits to `\d`: every accepted text with one digit written full-width or in Arabic-Indic
+        wide = [t[:i] + w + t[i + 1:] for t in texts for i, ch in enumerate(t) if ch.isdigit() and ch.isascii() for w in (chr(0xFF10 + int(ch)), chr(0x0660 + int(ch)))][:12]
+        extra = [t + "x" for t in texts] + ["", "é", "😀"] + wide
         for t in texts + extra:
             sw.note(["bytes", name, t], "entry-" + name)
             a, b = outcome(lambda: fn(t)), outcome(lambda: fn(t.encode("utf-8")))
